@@ -130,7 +130,7 @@ func BuildArena(dst string) error {
 		return wr(p, s)
 	}
 	steps := []error{
-		mk("/w"), mk("/tmp"), mk("/cwd"), mk(d),
+		mk("/w"), mk("/tmp"), mk("/cwd"), mk(d), mk("/w/peer-dst"),
 		near(d+"-evil/keep", "OUT-evil-keep"),
 		near(d+"x", "OUT-dstx"),
 		near(parent+"/victim", "OUT-victim"),
@@ -190,6 +190,8 @@ func Run(sc *uw.Scenario) *simkit.Outcome {
 	dsts := map[string]*dstState{}
 	states := map[string]bool{}
 	decorated := false
+	book := &simkit.TapeBook{Tapes: sc.Tapes, Have: sc.HaveTape}
+	defer func() { out.Tapes = book.Collect() }()
 	var shared *slug.Packer
 	if sc.SharedPacker {
 		shared, _ = slug.NewPacker(allowOpts(sc.Allow)...)
@@ -238,7 +240,13 @@ func Run(sc *uw.Scenario) *simkit.Outcome {
 				plan.Faults[i].Off %= (len(gz) + 1)
 			}
 		}
-		rd := simkit.NewSimReader(fmt.Sprintf("slug%d", ai), gz, plan, log, nil)
+		var sched *simkit.Sched
+		var yld simkit.Yielder
+		if sc.ConcPeer && shared != nil {
+			sched = book.NewSched(log, sc.SchedSeed+uint64(ai), "uw/peer", "random")
+			yld = sched
+		}
+		rd := simkit.NewSimReader(fmt.Sprintf("slug%d", ai), gz, plan, log, yld)
 		hasMut := len(plan.Muts) > 0 || len(ar.Raw) > 0 || ar.CutTar > 0
 
 		// model classification of the archive, entry by entry
@@ -267,11 +275,20 @@ func Run(sc *uw.Scenario) *simkit.Outcome {
 		if realDst != dstClean {
 			excl = append(excl, realDst)
 		}
+		if sched != nil {
+			excl = append(excl, "/w/peer-dst")
+			// (emptied before the snapshot is taken: the harness's own housekeeping must not show in it)
+			if ents, err := os.ReadDir("/w/peer-dst"); err == nil {
+				for _, e := range ents {
+					simkit.ForceRemoveAll("/w/peer-dst/" + e.Name())
+				}
+			}
+		}
 		before := simkit.Snapshot(excl...)
 		log.Add(0, "op-start", fmt.Sprintf("unpack #%d", ai))
 		var uerr error
 		var pan interface{}
-		func() {
+		observed := func() {
 			defer func() {
 				if r := recover(); r != nil {
 					pan = r
@@ -287,7 +304,37 @@ func Run(sc *uw.Scenario) *simkit.Outcome {
 				}
 			}
 			uerr = p.Unpack(rd, dst)
-		}()
+		}
+		if sched == nil {
+			observed()
+		} else {
+			// another caller uses the same Packer for its own destination at the same time
+			peerAr := uw.Archive{Format: "auto", Entries: []uw.Entry{
+				{Name: "pd/", Type: "dir", Mode: 0o755, Sec: 1000000000},
+				{Name: "pd/f", Type: "reg", Mode: 0o644, Sec: 1000000000, Body: "PEER;", Pad: 3000},
+				{Name: "pl", Type: "sym", Mode: 0o777, Sec: 1000000000, Link: "pd/f"},
+			}}
+			praw, _ := peerAr.BuildTar()
+			prd := simkit.NewSimReader(fmt.Sprintf("peer%d", ai), uw.Gzip(praw), simkit.ReaderPlan{Chunks: []int{64}}, log, sched)
+			var perr error
+			var ppan interface{}
+			sched.Go("unpack", func(tk *simkit.Task) { observed() })
+			sched.Go("peer", func(tk *simkit.Task) {
+				defer func() { ppan = recover() }()
+				perr = shared.Unpack(prd, "/w/peer-dst")
+			})
+			if err := sched.Run(); err != nil {
+				out.Violate("C19", "unpack-sched", "deadlock", "concurrent Unpack calls on one Packer: "+err.Error())
+			}
+			out.Decisions += sched.Decisions
+			pt := ListTree("/w/peer-dst")
+			if perr != nil || ppan != nil || pt["pd/f"].Kind != 'f' || len(pt["pd/f"].Body) != 3005 || pt["pl"].Target != "pd/f" || len(pt) != 3 {
+				for _, pr := range []string{"C15", "C04"} {
+					out.Violate(pr, "peer-unpack", "concurrent", fmt.Sprintf("archive %d: a caller unpacking a plain archive into /w/peer-dst with the same Packer at the same time got err=%v panic=%v and %d paths (3 expected)", ai, perr, ppan, len(pt)))
+				}
+			}
+			out.Probe("unpack-beside-a-peer-on-one-packer")
+		}
 		after := simkit.Snapshot(excl...)
 		es := "nil"
 		if uerr != nil {
